@@ -643,6 +643,14 @@ def rule_r7(repo, run, table):
     run.floor(R, "suffixed lookups", n, 30)
 
 
+def rule_r8(repo, run):
+    R = run.rule("C10.R8", "a string result by value / by reference / by pointer is fetched by the statements written for that "
+                           "form: the C wrapper selects result statements by the function's own indirection (C02.R15)")
+    from checks import c02
+    from sa.report import import_rules
+    import_rules(run, R, c02, repo, {"C02.R15"}, only=lambda c: "result-indirection" in c)
+
+
 def run(repo, run, tier):
     tables.check_model_assumptions(repo)
     helpers = tables.build_helper_table(repo)
@@ -654,6 +662,7 @@ def run(repo, run, tier):
     rule_r5(repo, run)
     rule_r6(repo, run, table)
     rule_r7(repo, run, table)
+    rule_r8(repo, run)
     run.assumptions.extend([
         "clang 14 as parser only (-fsyntax-only, JSON AST); helper contracts (what callers guarantee) are "
         "the table CONTRACTS in checks/c10.py, discharged at the call sites by C10.R2",
